@@ -712,6 +712,12 @@ def decorate(b, rng, kinds):
             if pts and rng.random() < 0.7:
                 p = rng.choice(pts)
                 b.block(Bp, p, 0)
+            if pts and rng.random() < 0.5:
+                # a user constraint attached to the partition itself (public BlockPartition.add_constraint)
+                b.bound(b.sq(rng.choice(pts)), 3e3, target=Bp)
+        elif kind == "part_cons" and pts:
+            Bp = b.parts[0] if b.parts else b.partition(rng.choice([2, 3]))
+            b.bound(b.sq(rng.choice(pts)), 4e3, target=Bp)
         elif kind == "orphan_psd" and info.get("metrics"):
             # a PSDMatrix object that is created but never added to the model
             b.psd([[info["metrics"][0], 0.0], [0.0, 1.0]], target=None)
@@ -719,7 +725,7 @@ def decorate(b, rng, kinds):
 
 
 DECORATIONS = ["extra_metric", "redundant_cons", "eq_cons", "func_cons", "lmi_sym", "lmi_asym", "lmi_func", "lmi3",
-               "unused_query", "useless_partition", "orphan_psd"]
+               "unused_query", "useless_partition", "orphan_psd", "part_cons"]
 
 
 def build_model(rng, prefix="", template=None, n=None, decorations=None, names=None, weights=None,
